@@ -207,7 +207,8 @@ def run_global(shard, mon: Mon):
         def hyp(t):
             judge.judge_iban_accept(mon, t, table, "W7h")
 
-        hyp()
+        if not shard.get("_threads"):
+            hyp()
     except ImportError:
         mon.notes["hypothesis"] = "not available"
 
